@@ -310,17 +310,17 @@ func init() {
 		Run:    scenarioFamily("C06", cfgDefault, mon.CheckC06, hasPodCreate, directedC06),
 		Floors: []string{"created_pods_checked", "claim_creates_checked", "claim_bindings_checked", "claim_history_scenarios", "claim_history_scenarios_with_lost_claim"}})
 	register(&Check{Prop: "C08", Level: "exploration",
-		Rule:   "scenario family with template edits, rollbacks (4 template versions), non-template edits, stray revisions; after every successful reconcile the believed update revision must mirror the cached template (independent decode and the exported ApplyRevision); and be the newest of the set's revisions (a re-used revision is renumbered above all others); revision creates / renumbers are checked; directed name-collision scenarios and rollbacks whose renumbering update is answered with a conflict / 500 / timeout; non-trivial = reconcile that created or renumbered a revision",
-		Assume: simAssumptions, Cases: scenarioCases(4800, 96000),
-		Run: scenarioFamily("C08", cfgDefault, mon.CheckC08, func(v *mon.View) bool {
+		Rule:   "scenario family with template edits, rollbacks (4 template versions), non-template edits, stray revisions; after every successful reconcile the believed update revision must mirror the cached template (independent decode and the exported ApplyRevision); and be the newest of the set's revisions (a re-used revision is renumbered above all others); revision creates / renumbers are checked; directed name-collision scenarios and rollbacks whose renumbering update is answered with a conflict / 500 / timeout; plus template churn (40 distinct templates in a row with returns to earlier ones: hash labels that parse as numbers take EqualRevision's short-cut); non-trivial = reconcile that created or renumbered a revision",
+		Assume: simAssumptions, Cases: func(t string) int { return scenarioCases(4800, 96000)(t) + scenarioCases(400, 8000)(t) },
+		Run: both(scenarioFamily("C08", cfgDefault, mon.CheckC08, func(v *mon.View) bool {
 			for _, c := range v.R.Writes() {
 				if c.Res == simapi.Revisions && (c.Verb == "create" || c.Verb == "update") {
 					return true
 				}
 			}
 			return false
-		}, directedC08),
-		Floors: []string{"revision_creates_checked", "revision_renumbers_checked", "successful_reconciles_checked", "unchanged_template_reconciles", "name_collisions_seen", "rollbacks_after_collision", "rollback_renumber_fault_scenarios", "newest_revision_postconditions_checked"}})
+		}, directedC08), scenarioCases(4800, 96000), churnFamily("C08")),
+		Floors: []string{"revision_creates_checked", "revision_renumbers_checked", "successful_reconciles_checked", "unchanged_template_reconciles", "name_collisions_seen", "rollbacks_after_collision", "rollback_renumber_fault_scenarios", "newest_revision_postconditions_checked", "churn_reconciles", "churn_revisions_with_all_digit_hash_label"}})
 }
 
 var directedC06, directedC08, directedC12 []func(*fam)
